@@ -507,6 +507,9 @@ def corpus_cases(name):
 
 def build_and_run(ck, cases):
     bindir = ck.cargo_build(["tendril"])
+    # mutation experiments on a private copy of /repo: VERIF_TENDRIL_BINDIR points at the
+    # directory holding a `tendril` harness binary built against that copy
+    bindir = os.environ.get("VERIF_TENDRIL_BINDIR", bindir)
     model = ck.ocaml_build("tendril_model", "tendril_model.ml", "tendril_driver.ml")
     impl_out = ck.run_lines(os.path.join(bindir, "tendril"), [], cases)
     model_out = ck.run_lines(model, [], cases)
